@@ -24,6 +24,10 @@ Inductive sx :=
 | SHole
 | SBool (b : bool)
 | SStr (lexeme : str)
+| SInterp (start : str) (items : list (sx * option str * str))
+    (* an interpolated string: the lexeme of the opening part (through the first brace), then for each
+       interpolation the expression, the lexeme of its format specifiers if any, and the lexeme of
+       the string part that follows it (the last one ends the string) *)
 | SParen (e : sx)
 | SList (es : list sx)                        (* [e, …] *)
 | SStruct (name : str) (fields : list (str * sx))   (* Name { f: e, … } *)
@@ -71,7 +75,7 @@ Definition binop_of (t : token) : binop :=
    12 `^`, 13 factorial, 14 unicode exponent, 15 call / field access, 16 primary *)
 Definition lvl (t : sx) : nat :=
   match t with
-  | SNum _ | SBased _ _ | SNaN | SInf | SIdent _ | SHole | SBool _ | SStr _ | SParen _
+  | SNum _ | SBased _ _ | SNaN | SInf | SIdent _ | SHole | SBool _ | SStr _ | SInterp _ _ | SParen _
   | SList _ | SStruct _ _ => 16
   | SCall _ _ | SField _ _ => 15
   | SUPow _ _ => 14
@@ -94,6 +98,15 @@ Fixpoint pr (t : sx) : list token :=
   | SHole => [TQuestionMark]
   | SBool b => [if b then TTrue else TFalse]
   | SStr l => [TString l]
+  | SInterp l0 items =>
+      TInterpStart l0 ::
+      (fix go (l : list (sx * option str * str)) : list token :=
+         match l with
+         | [] => []
+         | (a, f, lx) :: r =>
+             pr a ++ match f with Some x => [TInterpSpec x] | None => [] end
+             ++ match r with [] => [TInterpEnd lx] | _ :: _ => TInterpMiddle lx :: go r end
+         end) items
   | SParen e => TLParen :: pr e ++ [TRParen]
   | SList es =>
       TLBracket ::
@@ -135,6 +148,14 @@ Fixpoint pr_args (args : list sx) : list token :=
   | a :: r => pr a ++ match r with [] => [] | _ :: _ => TComma :: pr_args r end
   end.
 
+Definition pr_spec (f : option str) : list token := match f with Some x => [TInterpSpec x] | None => [] end.
+Fixpoint pr_items (items : list (sx * option str * str)) : list token :=
+  match items with
+  | [] => []
+  | (a, f, lx) :: r =>
+      pr a ++ pr_spec f ++ match r with [] => [TInterpEnd lx] | _ :: _ => TInterpMiddle lx :: pr_items r end
+  end.
+
 Fixpoint pr_fields (fields : list (str * sx)) : list token :=
   match fields with
   | [] => []
@@ -151,6 +172,11 @@ Fixpoint desugar (t : sx) : expr :=
   | SHole => EHole
   | SBool b => EBool b
   | SStr l => EString (strip_and_escape l)
+  | SInterp l0 items =>
+      EInterp (filter nonempty_part
+                 (PFixed (strip_and_escape l0)
+                  :: flat_map (fun it => [PExpr (desugar (fst (fst it))) (snd (fst it));
+                                          PFixed (strip_and_escape (snd it))]) items))
   | SParen e => desugar e
   | SList es => EList (map desugar es)
   | SStruct n fields => EStruct n (map (fun fe => (fst fe, desugar (snd fe))) fields)
@@ -194,6 +220,7 @@ Fixpoint wf (t : sx) : bool :=
   match t with
   | SNum _ | SNaN | SInf | SIdent _ | SHole | SBool _ | SStr _ => true
   | SBased b l => negb (i128_overflow (radix_value b (tl (tl l))))
+  | SInterp _ items => match items with [] => false | _ => forallb (fun it => wf (fst (fst it))) items end
   | SParen e => wf e
   | SList es => forallb wf es
   | SStruct _ fields => forallb (fun fe => wf (snd fe)) fields
@@ -270,6 +297,7 @@ Fixpoint min_paren (e : expr) : sx :=
   | EHole => SHole
   | EBool b => SBool b
   | EString s => SStr (c_quote :: escape_numbat_string s ++ [c_quote])
+  | EInterp _ => SStr []                    (* not in the class of `printable`; see Syntax/TypedPrinter.v for the echo *)
   | EUn Negate a => SNeg (at_level 10 (min_paren a))
   | EUn (Factorial n) a => SFact (at_level 14 (min_paren a)) (pred n)
   | EUn LogicalNeg a => SNot (at_level 5 (min_paren a))
@@ -296,6 +324,7 @@ Fixpoint printable (e : expr) : bool :=
   | EScalar l => forallb (fun c => negb (c =? 95)%N) l
   | EScalarExp _ => false
   | EIdent _ | EHole | EBool _ | EString _ => true
+  | EInterp _ => false
   | EUn (Factorial n) a => negb (n =? 0) && printable a
   | EUn _ a => printable a
   | EBin _ a b => printable a && printable b
